@@ -225,22 +225,7 @@ pub fn c05(a: &Args) {
             "My {p} was {p}.", "Is it {p}?", "He is very {p}.", "{p} {p}", "To {p} is fine.", "We saw {p} and the {p}s."];
         // split compounds: lower-case dictionary words that are two dictionary words written together
         // (rules that merge or split words consult the dictionary about exactly these)
-        let splits: Vec<String> = {
-            use harper_core::Dictionary;
-            let dict = FstDictionary::curated();
-            let mut v = Vec::new();
-            for w in dict.words_iter() {
-                if w.len() < 6 || w.len() > 11 || !w.iter().all(|c| c.is_ascii_lowercase()) { continue; }
-                for k in 3..=w.len() - 3 {
-                    if dict.contains_exact_word(&w[..k]) && dict.contains_exact_word(&w[k..]) {
-                        v.push(format!("{} {}", w[..k].iter().collect::<String>(), w[k..].iter().collect::<String>()));
-                        break;
-                    }
-                }
-            }
-            v.sort();
-            v
-        };
+        let splits: Vec<String> = split_compounds();
         for i in 0..a.num("context-families", 60) as usize {
             let t = rng.pick(&corpus[..]).clone();
             let words: Vec<&str> = t.split(|c: char| !c.is_alphabetic() && c != '\'').filter(|w| !w.is_empty()).collect();
@@ -578,6 +563,24 @@ pub fn c11(a: &Args) {
 
 // ------------------------------------------------------------------ C12
 
+/// lower-case dictionary words that are two dictionary words written together, as "first second"
+fn split_compounds() -> Vec<String> {
+    use harper_core::Dictionary;
+    let dict = FstDictionary::curated();
+    let mut v = Vec::new();
+    for w in dict.words_iter() {
+        if w.len() < 6 || w.len() > 11 || !w.iter().all(|c| c.is_ascii_lowercase()) { continue; }
+        for k in 3..=w.len() - 3 {
+            if dict.contains_exact_word(&w[..k]) && dict.contains_exact_word(&w[k..]) {
+                v.push(format!("{} {}", w[..k].iter().collect::<String>(), w[k..].iter().collect::<String>()));
+                break;
+            }
+        }
+    }
+    v.sort();
+    v
+}
+
 pub fn c12(a: &Args) {
     let mut out = Out::create(a.req("out"));
     let mut rng = Rng::new(a.num("seed", 1));
@@ -629,6 +632,26 @@ pub fn c12(a: &Args) {
             for tail in ["It was a.", "He had an.", "This is the.", "We want to.", "They could.", "There is.", "I saw the the.", "She is better.", "It is more.", "Back in the.", "Last but not."] {
                 if rng.chance(1, 8) { jobs.push((format!("{} {}\n\n", body, tail), d.clone())); }
             }
+        }
+    }
+    // both paragraphs from sentences on which one rule's sub-rules flag the same words (split compounds after a
+    // possessive / article and before a modal, pronoun-contraction mix-ups, "lets", currency): whatever a rule does to
+    // reconcile its own lints is done per document, and must give per paragraph what it gives alone
+    {
+        let splits = split_compounds();
+        let frames = ["The {} will break soon.", "The device's {} will be updated overnight.", "A {} might help.", "My {} can wait.", "Her {} is new.",
+            "This {} should work.", "Its {} was lost.", "Their {} could fail."];
+        let fixed = ["Your welcome to try.", "There going home and your right.", "Lets go now, lets see.", "I hop you are well.", "It costs 5$ and 10 $.",
+            "Its a shame that its broken.", "Whose there and who's book is it.", "He could of gone."];
+        let mut pick = |rng: &mut Rng| -> String {
+            if rng.chance(3, 4) && !splits.is_empty() { { let sp: String = rng.pick(&splits[..]).clone(); rng.pick(&frames[..]).replace("{}", &sp) } } else { rng.pick(&fixed[..]).to_string() }
+        };
+        for _ in 0..(n / 4).max(20) {
+            let mut p = pick(&mut rng);
+            if rng.chance(1, 3) { p = format!("{} {}", p, pick(&mut rng)); }
+            if rng.chance(1, 3) { p = format!("{}\n\n{}", p, rng.pick(&paras[..])); }
+            let d = if rng.chance(1, 4) { format!("{} {}", pick(&mut rng), pick(&mut rng)) } else { pick(&mut rng) };
+            jobs.push((format!("{p}\n\n"), d));
         }
     }
     let evs = par_map(jobs.len(), a.num("threads", 12) as usize, |_| front::all_rules_group(Dialect::American), |lg, i| {
